@@ -46,7 +46,12 @@ Check(e) ==
 
 Init == tid \in 1..Len(Traces) /\ l = 1 /\ verdict = "ok"
 Next == /\ verdict = "ok" /\ l <= Len(Traces[tid])
-        /\ verdict' = IF Traces[tid][l].ev \notin {"Info"} THEN "unknown_event" ELSE Check(Traces[tid][l])
+        \* InfoShared: the same judgement for an evaluation made after the transform object served a LATER configuration
+        /\ verdict' = IF Traces[tid][l].ev = "Info" THEN Check(Traces[tid][l])
+                      ELSE IF Traces[tid][l].ev = "InfoShared"
+                           THEN (IF Check(Traces[tid][l]) = "ok" THEN "ok"
+                                 ELSE "transform_object_shared_with_a_later_configuration_" \o Check(Traces[tid][l]))
+                      ELSE "unknown_event"
         /\ l' = IF verdict' = "ok" THEN l + 1 ELSE l
         /\ UNCHANGED tid
 Report == (verdict # "ok" \/ l = Len(Traces[tid]) + 1) =>
